@@ -17,8 +17,6 @@ package logdb
 import (
 	"math"
 
-	"github.com/cockroachdb/errors"
-
 	"github.com/lni/dragonboat/v4/internal/logdb/kv"
 	"github.com/lni/dragonboat/v4/raftio"
 	pb "github.com/lni/dragonboat/v4/raftpb"
@@ -198,7 +196,10 @@ func (be *batchedEntries) iterateBatches(shardID uint64,
 	replicaID uint64, low uint64, high uint64) ([]pb.EntryBatch, error) {
 	ents := make([]pb.EntryBatch, 0)
 	if low+1 == high {
-		e, ok := be.getBatchFromDB(shardID, replicaID, low)
+		e, ok, err := be.readBatchFromDB(shardID, replicaID, low)
+		if err != nil {
+			return nil, err
+		}
 		if !ok {
 			return []pb.EntryBatch{}, nil
 		}
@@ -287,15 +288,19 @@ func (be *batchedEntries) rangedOp(shardID uint64,
 
 func (be *batchedEntries) recordBatch(wb kv.IWriteBatch,
 	shardID uint64, replicaID uint64, eb pb.EntryBatch,
-	firstBatchID uint64, lastBatchID uint64, ctx IContext) {
+	firstBatchID uint64, lastBatchID uint64, ctx IContext) error {
 	if len(eb.Entries) == 0 {
-		return
+		return nil
 	}
 	batchID := getBatchID(eb.Entries[0].Index)
 	var meb pb.EntryBatch
 	if firstBatchID == batchID {
+		var err error
 		lb := ctx.GetLastEntryBatch()
-		meb = be.getMergedFirstBatch(shardID, replicaID, eb, lb)
+		meb, err = be.getMergedFirstBatch(shardID, replicaID, eb, lb)
+		if err != nil {
+			return err
+		}
 	} else {
 		meb = eb
 	}
@@ -311,10 +316,11 @@ func (be *batchedEntries) recordBatch(wb kv.IWriteBatch,
 	k := ctx.GetKey()
 	k.SetEntryBatchKey(shardID, replicaID, batchID)
 	wb.Put(k.Key(), data)
+	return nil
 }
 
-func (be *batchedEntries) record(wb kv.IWriteBatch,
-	shardID uint64, replicaID uint64, ctx IContext, entries []pb.Entry) uint64 {
+func (be *batchedEntries) record(wb kv.IWriteBatch, shardID uint64,
+	replicaID uint64, ctx IContext, entries []pb.Entry) (uint64, error) {
 	if len(entries) == 0 {
 		panic("empty entries")
 	}
@@ -332,7 +338,10 @@ func (be *batchedEntries) record(wb kv.IWriteBatch,
 		}
 		batchID := getBatchID(ent.Index)
 		if batchID != currentBatchIdx {
-			be.recordBatch(wb, shardID, replicaID, eb, firstBatchID, lastBatchID, ctx)
+			if err := be.recordBatch(wb,
+				shardID, replicaID, eb, firstBatchID, lastBatchID, ctx); err != nil {
+				return 0, err
+			}
 			eb.Entries = eb.Entries[:0]
 			currentBatchIdx = batchID
 		}
@@ -340,56 +349,83 @@ func (be *batchedEntries) record(wb kv.IWriteBatch,
 		idx++
 	}
 	if len(eb.Entries) > 0 {
-		be.recordBatch(wb, shardID, replicaID, eb, firstBatchID, lastBatchID, ctx)
+		if err := be.recordBatch(wb,
+			shardID, replicaID, eb, firstBatchID, lastBatchID, ctx); err != nil {
+			return 0, err
+		}
 	}
-	return maxIndex
+	return maxIndex, nil
 }
 
-func (be *batchedEntries) getBatchFromDB(shardID uint64,
-	replicaID uint64, batchID uint64) (pb.EntryBatch, bool) {
+// readBatchFromDB returns the specified entry batch. The returned boolean flag
+// indicates whether there is such a batch in the DB, a failed read is reported
+// as an error rather than as a missing batch.
+func (be *batchedEntries) readBatchFromDB(shardID uint64,
+	replicaID uint64, batchID uint64) (pb.EntryBatch, bool, error) {
 	var e pb.EntryBatch
+	found := false
 	k := be.keys.get()
 	defer k.Release()
 	k.SetEntryBatchKey(shardID, replicaID, batchID)
 	if err := be.kvs.GetValue(k.Key(), func(data []byte) error {
 		if len(data) == 0 {
-			return errors.New("no such entry")
+			return nil
 		}
+		found = true
 		pb.MustUnmarshal(&e, data)
 		return nil
 	}); err != nil {
-		return e, false
+		return pb.EntryBatch{}, false, err
+	}
+	if !found {
+		return e, false, nil
 	}
 	if len(e.Entries) > 1 {
-		return restoreBatchFields(e), true
+		return restoreBatchFields(e), true, nil
 	}
-	return e, true
+	return e, true, nil
 }
 
-func (be *batchedEntries) getLastBatch(shardID uint64,
-	replicaID uint64, firstIndex uint64, lb pb.EntryBatch) (pb.EntryBatch, bool) {
+func (be *batchedEntries) getBatchFromDB(shardID uint64,
+	replicaID uint64, batchID uint64) (pb.EntryBatch, bool) {
+	e, ok, err := be.readBatchFromDB(shardID, replicaID, batchID)
+	if err != nil {
+		return pb.EntryBatch{}, false
+	}
+	return e, ok
+}
+
+func (be *batchedEntries) getLastBatch(shardID uint64, replicaID uint64,
+	firstIndex uint64, lb pb.EntryBatch) (pb.EntryBatch, bool, error) {
 	batchID := getBatchID(firstIndex)
 	lb, ok := be.cs.getLastBatch(shardID, replicaID, lb)
 	if !ok || batchID < getBatchID(lb.Entries[0].Index) {
-		lb, ok = be.getBatchFromDB(shardID, replicaID, batchID)
+		var err error
+		lb, ok, err = be.readBatchFromDB(shardID, replicaID, batchID)
+		if err != nil {
+			return pb.EntryBatch{}, false, err
+		}
 		if !ok {
-			return pb.EntryBatch{}, false
+			return pb.EntryBatch{}, false, nil
 		}
 	}
-	return lb, true
+	return lb, true, nil
 }
 
 func (be *batchedEntries) getMergedFirstBatch(shardID uint64,
-	replicaID uint64, eb pb.EntryBatch, lb pb.EntryBatch) pb.EntryBatch {
+	replicaID uint64, eb pb.EntryBatch, lb pb.EntryBatch) (pb.EntryBatch, error) {
 	// batch aligned
 	if eb.Entries[0].Index%batchSize == 0 {
-		return eb
+		return eb, nil
 	}
-	lb, ok := be.getLastBatch(shardID, replicaID, eb.Entries[0].Index, lb)
+	lb, ok, err := be.getLastBatch(shardID, replicaID, eb.Entries[0].Index, lb)
+	if err != nil {
+		return pb.EntryBatch{}, err
+	}
 	if !ok {
-		return eb
+		return eb, nil
 	}
-	return getMergedFirstBatch(eb, lb)
+	return getMergedFirstBatch(eb, lb), nil
 }
 
 func (be *batchedEntries) binaryFormat() uint32 {
